@@ -12,6 +12,7 @@ def run(tier, seed):
     for m, t in [c for c in mpinst.configs(tier) if c[0] >= 2]:
         for np_ in (False, True):
             T.append(('sx.mpinst2', 'crash_points', (m, t, tier, np_)))
+            T.append(('sx.mpinst2', 'crash_points', (m, t, tier, np_, None, 'eof')))
     obs = run_tasks(T)
     return finish('C36', tier, seed, obs, 'other', t0,
                   explanation='safety argument from discharged contracts plus a bounded crash enumeration: (a) engine A: data_received hands a payload over only '
